@@ -142,7 +142,35 @@ def run(ctx):
         bits = '%s.generators.bp_gens.gens_capacity' % S
         idiom = a[1] == 'Le' and a[3] == '0' and a[2].startswith('(each(%s.openings).v Shr ' % W)
         if not idiom:
-            rep.idiom_absent('R-C06-1', 'R-C06-1/value-fits/constants', 'value-fit guard is not of the form `bits < K && (v >> s) > 0`: %s under %s (constants not decided)' % (a, list(r['ctx'])))
+            # the other common spelling: a comparison of the value with a bound computed from the bit length
+            from .common import bound_verdict
+            gcond = r['guard'].cond
+            gq = r['guard']
+            accept_when = False if gq.reject_when_true() else True
+            if r.get('spliced') and a[0] == 'cmp':
+                # rows spliced from an any()/all() closure or a flag alternative carry the alternative's term; their atom is the accept form
+                accept_when = None
+            is_v = lambda t: canon(t) == 'each(%s.openings).v' % W
+            is_b = lambda t: canon(t) == bits
+            verdict, why = (None, '')
+            if gcond.tag in ('binop', 'unop'):
+                if accept_when is None:
+                    # decide from the atom: ('cmp', op, X, Y) is the accepted relation X op Y
+                    from bpsa.terms import T as _T
+                    opmap = {'Le': 'Le', 'Lt': 'Lt'}
+                    c0 = gcond
+                    while c0.tag == 'unop' and c0[1] == 'Not':
+                        c0 = c0[2]
+                    if c0.tag == 'binop' and a[1] in opmap:
+                        x, y = (c0[2], c0[3]) if canon(c0[2]) == a[2] else (c0[3], c0[2])
+                        verdict, why = bound_verdict(ctx.eng, _T('binop', a[1], x, y), True, is_v, is_b)
+                else:
+                    verdict, why = bound_verdict(ctx.eng, gcond, accept_when, is_v, is_b)
+            if verdict is None:
+                rep.idiom_absent('R-C06-1', 'R-C06-1/value-fits/constants', 'value-fit guard is neither `bits < K && (v >> s) > 0` nor a comparison with 2^bits + k (%s): %s under %s (constants not decided)' % (why, a, list(r['ctx'])))
+            else:
+                rep.check(verdict, 'R-C06-1', 'R-C06-1/value-fits/constants', 'value-fit guard compares the value with a bound computed from the bit length: ' + why,
+                          'value-fit guard: ' + why, ctx.where(p, r['guard'].bb))
         else:
             s = a[2][len('(each(%s.openings).v Shr ' % W):-1]
             ks = [x for x in r['ctx'] if x[0] == 'cmp' and x[1] == 'Le' and x[2] == bits]
